@@ -98,7 +98,11 @@ LEVEL_RESPONSES = (["yq", "cq", "cqo"] + [f"yq['{l}']" for l in QLEVELS] +
                    ['yq[""]', 'yq["no answer"]', "yq[if]", "yq[not]", "yq['absent level']", "yq[' ']",
                     "cq['']", 'cq[""]', "cq['None']", "cqo['']", 'cqo["1"]', "cqo['no answer']",
                     "cq['absent']"])
-BAD_RESPONSES = ["y + z", "y:z", "y*z", "(y | g)", "1", "0", "y / z"]
+BAD_RESPONSES = ["y + z", "y:z", "y*z", "(y | g)", "1", "0", "y / z",
+                 # two terms over ONE variable that differ in the level only (eleventh seeded wave,
+                 # C15_Q: term identity by name, which leaves out `[level]`, collapses them into one)
+                 "yc[no] + yc[yes]", "yc[no]:yc[yes]", "yc[no]*yc[yes]", "yc[no] + yc",
+                 "yc['maybe'] + yc[yes] + yc[no]", "yc[yes] / yc[no]", "yc + yc[maybe]"]
 RHS = ["x", "f", "x + f", "f:x + g", "0 + f", "x + (1 | g)", "(x | g) + f", "C(k) + z",
        "center(x):f", "1", "0 + x + (0 + f | h)", "0", "-1", "0 + (1 | g)"]
 
